@@ -34,7 +34,7 @@ SHAPES = ["map", "filter", "filter_map", "inspect", "flat_map", "flatten", "fold
           "unzip_persist", "demux_mixed", "demux_var"]
 # shapes whose implementation-shaped model reproduces a documented defect of the code (the model
 # check prints the broken rules for them instead of asserting the property)
-BADSHAPES = ["state_push", "filter_map_async"]
+BADSHAPES = []
 # fingerprints name the combinator type, not the catalogue variant
 KIND_OF = {"rf_ordered": "resolve_futures", "rf_unordered": "resolve_futures", "rf_ordered_w": "resolve_futures",
            "rf_unordered_w": "resolve_futures", "persist_replay": "persist", "persist_norep": "persist",
